@@ -20,7 +20,21 @@ RULE = ("signing histories: a transaction of 1-5 inputs over the standard puzzle
         "multisig key at a time in a chosen order (then a closing pass with exactly the missing number of keys, the largest multisig receiving "
         "its last key alone), signed-edited-signed again, with wrong or too few keys; on BTC, XTN, LTC, BCH, BTG, GRS, DOGE, DASH and, walking "
         "shard by shard, every other registered network. Distinct by (network, puzzle kinds, key form, hash type, supply, order). Every puzzle "
-        "kind, supply mechanism, hash-type byte, network and partial-signing situation has a required evidence counter.")
+        "kind, supply mechanism, hash-type byte, network and partial-signing situation has a required evidence counter. "
+        "Key supply by ONE keychain holding several secrets (keychain_multi): four wallets - two of them unrelated masters whose root "
+        "fingerprints collide - registered from the public or private master, from account nodes, from both, or by add_keys_path, "
+        "their secrets arriving as the master alone, the master plus its own root key as a plain compressed / uncompressed key, the "
+        "same master as two objects, account nodes plus master, in one shuffled order, wallets added again in later passes, inputs "
+        "paying to the root keys themselves. Between judged passes, calls the library refuses: the same transaction holding for "
+        "that call a value that does not fit its field or has the wrong type (lock time, version, sequence, outpoint index, amounts, "
+        "output script, unknown spent output), unusable arguments (hash type, index set, non-integer secret, lookup without get, "
+        "non-bytes scripts, non-integer secret to build_hash160_lookup, non-WIF to sign_tx), another transaction of this or "
+        "another coin with such a value; Tx.sign or one kept Solver per transaction. Argument objects of the caller (lookup "
+        "dicts, WIF / key / script lists, index collections) are compared after every call and either rebuilt, handed over again "
+        "or emptied by the caller. Exact boundary values of every hashed field (amounts 0, 2**32-1 .. 2**64-1, sequence / index / "
+        "lock time / version at 16-, 31-, 32-bit edges, 252-254 outputs, output scripts of 252-254 and 65535-65536 bytes). One "
+        "long-run shard: ONE keychain, ONE transaction object, more than 2**16 + 100 secrets added one by one (thorough: 2**17 + 100), "
+        "every answer of the keychain compared with the reference's running point sum, signing sampled and dense at the boundaries.")
 ASSUMPTIONS = [
     "standard policy flag set = all 16 verification flags pycoin defines (on fork-id coins without STRICTENC, as the statement prescribes)",
     "validity is decided twice: by pycoin's own is_solution_ok under that flag set and by the reference interpreter (vmon/refs/script.py) on the "
@@ -34,11 +48,25 @@ ASSUMPTIONS = [
     "its keys were supplied (mechanism sign.raises.<type>), not when nothing was solvable",
     "hierarchical-keychain histories use compressed keys only (BIP32 keys are compressed by definition; Keychain.add_key_paths indexes the "
     "compressed hash160); they keep ONE keychain for the whole history, register public paths first and add cosigner secrets pass by pass",
+    "a key held by a keychain counts as supplied when the private node its path was registered under has been added (whatever else "
+    "was added before or after it, under the same 4-byte fingerprint or not); a leaf registered under two nodes needs either",
+    "a call the library refuses is never judged by itself; the judged pass that follows uses the same keys and request, so whatever "
+    "the refused call managed to write is what the pass would have written",
+    "the caller's argument objects are compared by value (dict / list / set contents and list order) before and after the call",
+    "long run: Keychain.get is the interface the signer reads a keychain through; an answer that is not the supplied key is only a "
+    "suspect and becomes a violation when an input paying to that key, signed with the keychain and with exactly that answer, "
+    "does not validate",
 ]
 EXPLANATION = "validity (pycoin and reference), canonical signature form, frame condition and the m-distinct-keys model are checked after every signing step"
 TIMEOUT = {"quick": 900, "thorough": 4 * 3600}
 
 ALL16 = 0xffff
+# two unrelated BIP32 masters whose root keys share the 4-byte BIP32 fingerprint hash160(sec(P))[:4] (a 32-bit birthday
+# collision, the pair published with seeded/C05-h; verified through the reference curve and base58 in selftest)
+COLLIDING_XPRV = (
+    "xprv9s21ZrQH143K3kuerPq45iQpGz5AXdAQv5axLDfMajM4EhqJ2EhuhRi7facqjWa3iCyQcuPcZycYRqjZau549yuoNXSZx1vUPDhicDGVfw8",
+    "xprv9s21ZrQH143K3vmFZ8DKt9gYfy7LK1xCFBY5db3nhcygUaP63YyKXHDvopmSb6kAUc85kk5stgXg9shWvM325FUNR7TvHLZycCy8SPbK4yJ",
+)
 CORE_NETS = ["BTC", "XTN", "LTC", "BCH", "BTG", "GRS", "DOGE", "DASH"]
 FORK = {"BCH": ("bch", 0), "XCH": ("bch", 0), "BTG": ("btg", 79 << 8), "XTG": ("btg", 79 << 8)}
 GRS_NETS = ("GRS", "TGRS", "GRSRT")
@@ -48,6 +76,8 @@ def plan(tier, seed):
     q = tier == "quick"
     shards = []
     n = 16 if q else 64
+    # the long run first, so that it works in parallel with all the others: ONE keychain taking more than 2**16 + 100 secrets
+    shards.append({"kind": "longrun", "ops": (2 ** 16 if q else 2 ** 17) + 100 + 28, "label": "longrun", "slot": 0, "n": 0})
     for i in range(n):
         shards.append({"kind": "hist", "n": 80 if q else 700, "slot": i, "env": {"PYTHONHASHSEED": str(i % 5)}})
     return shards
@@ -62,7 +92,30 @@ def selftest(rec):
     import pycoin
     from vmon.refs import coretext
     d = os.path.join(os.path.dirname(os.path.dirname(pycoin.__file__)), "tests", "btc", "data")
-    return coretext.selftest(d)
+    out = coretext.selftest(d)
+    out["colliding_fingerprint"] = colliding_pair_selftest()
+    return out
+
+
+def colliding_blobs():
+    """the 78-byte BIP32 serialisations of the colliding pair (reference base58check)"""
+    from vmon.refs import b58
+    return [b58.decode_check(x) for x in COLLIDING_XPRV]
+
+
+def colliding_pair_selftest():
+    """the constant pair really is two different private masters with one fingerprint - by the reference curve, not by pycoin"""
+    fps, ids = [], []
+    for blob in colliding_blobs():
+        assert len(blob) == 78 and blob[:4] == bytes.fromhex("0488ade4") and blob[4] == 0 and blob[45] == 0, "not a private BIP32 master"
+        d = int.from_bytes(blob[46:], "big")
+        assert 0 < d < C.n
+        x, y = C.mul(d, C.G)
+        ident = hash160(bytes([2 + (y & 1)]) + x.to_bytes(32, "big"))
+        ids.append(ident)
+        fps.append(ident[:4])
+    assert fps[0] == fps[1] and ids[0] != ids[1], "the constant pair does not collide"
+    return fps[0].hex()
 
 
 def sha256(b):
@@ -110,6 +163,32 @@ class HDKeys(G.Keys):
         self.d = [self.roots[self.root_of[i]].subkey_for_path(self.path[i]).secret_exponent() for i in range(count)]
         self.P = [C.mul(d, C.G) for d in self.d]
         self._sig = {}
+
+
+class HDKeysMulti(HDKeys):
+    """several wallets living in ONE keychain: wallets 0 and 1 are the two unrelated masters whose root fingerprints collide,
+    wallets 2 and 3 are ordinary; the first key of every wallet is the root key itself (path "")."""
+
+    def __init__(self, net, count=24, roots=4):
+        self.roots = [net.keys.bip32_deserialize(b) for b in colliding_blobs()] + [net.keys.bip32_seed(b"vmon-wallet-%d" % j) for j in range(2, roots)]
+        self.path = ["" if i < roots else "%d/%d%s" % (i % 3, i, "" if i % 4 else "/7") for i in range(count)]
+        self.root_of = [i % roots for i in range(count)]
+        self.d = [self.roots[self.root_of[i]].subkey_for_path(self.path[i]).secret_exponent() for i in range(count)]
+        self.P = [C.mul(d, C.G) for d in self.d]
+        self._sig = {}
+
+
+# the forms in which one wallet's secret can be handed to a keychain (each list is shuffled together with the other wallets')
+MULTI_FORMS = ("xprv", "xprv+root_as_wif", "xprv_twice", "accounts+master", "xprv+root_as_uncompressed_wif")
+# the ways the public side of a wallet is registered
+MULTI_REGS = ("master_public", "master_private", "account", "master_and_account", "keys_path")
+
+
+# calls the library refuses (or may refuse), placed between judged passes
+INTERLUDES = (["same_tx." + f for f in ("lock_time", "version", "sequence", "outpoint_index", "out_amount", "out_script", "spent_amount", "unknown_unspent")]
+              + ["other_tx." + f for f in ("lock_time", "version", "sequence", "outpoint_index", "out_amount", "out_script", "spent_amount", "unknown_unspent")]
+              + ["arg." + f for f in ("hash_type", "index_out_of_range", "index_not_an_int", "secret_not_an_int", "lookup_without_get", "p2sh_lookup_values_not_bytes",
+                                      "lookup_built_from_non_int_secret", "wif_list_with_non_wif")])
 
 
 class Puzzle:
@@ -170,6 +249,8 @@ def make_puzzle(rng, keys, kind, nkeys_total, amount, force_compressed=False):
     return Puzzle(kind, b"\xa9\x14" + hash160(prog) + b"\x87", [prog, script], idx, m, comp, amount)
 
 
+EDGE_AMOUNTS = [0, 2 ** 32 - 1, 2 ** 32, 2 ** 63 - 1, 2 ** 63, 2 ** 64 - 1]
+EDGE_FIELDS = ("spent_amount", "outpoint_index", "sequence", "n_out>=252", "out_amount", "out_script_length", "version", "lock_time")
 KINDS = ["p2pk", "p2pkh", "p2pkh", "p2wpkh", "p2sh-p2wpkh", "ms:bare", "ms:p2sh", "ms:p2sh", "ms:p2wsh", "ms:p2sh-p2wsh"]
 
 
@@ -186,13 +267,29 @@ class History:
         rng, Tx = self.rng, self.net.tx
         n_in = rng.choice([1, 1, 2, 2, 3, 5])
         hd = isinstance(self.keys, HDKeys)      # BIP32 keys are compressed by definition
-        self.puzzles = [make_puzzle(rng, self.keys, rng.choice(KINDS), len(self.keys.d), rng.choice([1000, 600000000, 21 * 10 ** 14]), force_compressed=hd)
+        # exact boundary values of every field that is hashed (only where the history asks for them: C05's own histories)
+        edge = getattr(self, "boundaries", False)
+        self.edges = set()
+
+        def pick(field, normal, extremes, p=0.1):
+            if edge and rng.random() < p:
+                self.edges.add(field)
+                return rng.choice(extremes)
+            return normal()
+        self.puzzles = [make_puzzle(rng, self.keys, rng.choice(KINDS), len(self.keys.d),
+                                    pick("spent_amount", lambda: rng.choice([1000, 600000000, 21 * 10 ** 14]), EDGE_AMOUNTS), force_compressed=hd)
                         for _ in range(n_in)]
-        ins = [Tx.TxIn(G.rand_prev(rng), rng.randrange(4), b"", rng.choice([0xffffffff, 0xfffffffe, 0, 12345])) for _ in self.puzzles]
+        ins = [Tx.TxIn(G.rand_prev(rng), pick("outpoint_index", lambda: rng.randrange(4), [0xffffffff, 0xfffffffe, 0xffff, 0x10000, 252, 253]), b"",
+                       pick("sequence", lambda: rng.choice([0xffffffff, 0xfffffffe, 0, 12345]), [0x7fffffff, 0x80000000, 0xffff, 0x10000, 0xfffffffd, 0x400000, 0x3fffff]))
+               for _ in self.puzzles]
         n_out = rng.choice([1, 2, 3]) if rng.random() < 0.85 else max(1, n_in - 1)
-        outs = [Tx.TxOut(rng.choice([0, 1, 5000, 10 ** 8]), rng.choice([b"\x51", b"\x76\xa9\x14" + bytes(20) + b"\x88\xac", b"\x6a\x01\x07"])) for _ in range(n_out)]
+        n_out = pick("n_out>=252", lambda: n_out, [252, 253, 254], p=0.04)
+        outs = [Tx.TxOut(pick("out_amount", lambda: rng.choice([0, 1, 5000, 10 ** 8]), EDGE_AMOUNTS, p=0.1 if n_out < 9 else 0.002),
+                         pick("out_script_length", lambda: rng.choice([b"\x51", b"\x76\xa9\x14" + bytes(20) + b"\x88\xac", b"\x6a\x01\x07"]),
+                              [b"\x6a" + bytes(k - 1) for k in (252, 253, 254, 0xffff, 0x10000)], p=0.06 if n_out < 9 else 0.002)) for _ in range(n_out)]
         unspents = [Tx.TxOut(p.amount, p.spk) for p in self.puzzles]
-        self.tx = Tx(rng.choice([1, 2]), ins, outs, rng.choice([0, 0, 17, 500000001]), unspents)
+        self.tx = Tx(pick("version", lambda: rng.choice([1, 2]), [0, 3, 0x7fffffff, 0x80000000, 0xffffffff]), ins, outs,
+                     pick("lock_time", lambda: rng.choice([0, 0, 17, 500000001]), [0xffffffff, 499999999, 500000000, 0xffff, 0x10000]), unspents)
         self.hash_type = rng.choice([None, 1, 1, 2, 3, 0x81, 0x82, 0x83])
         if self.fork[0] in ("bch", "btg") and rng.random() < 0.3:
             # the caller may already include the fork-id bit in the requested type
@@ -307,15 +404,39 @@ class History:
             form = self.rng.choice([set, list, tuple, frozenset, sorted])
             kwargs["tx_in_idx_set"] = form(idx_set) if idx_set else self.rng.choice([set(), [], (), frozenset(), range(0)])
         self.log.append({"keys": sorted(key_indices), "via": mechanism, "idx_set": sorted(idx_set) if idx_set is not None else None})
+        judge_args = getattr(self, "arg_mode", None) is not None
+        fk = frozenset(key_indices)
+        owned = {}          # argument objects that belong to the caller: name -> object
+        if judge_args:
+            if isinstance(kwargs.get("tx_in_idx_set"), list):
+                self.rng.shuffle(kwargs["tx_in_idx_set"])           # the caller's list need not be sorted - and stays as it is
+            if "tx_in_idx_set" in kwargs and not isinstance(kwargs["tx_in_idx_set"], (tuple, frozenset, range)):
+                owned["tx_in_idx_set"] = kwargs["tx_in_idx_set"]
+            p2sh_lookup = self.caller_object("p2sh_lookup", (), lambda: p2sh_lookup)
+            owned["scripts"] = scripts
+            if mechanism in ("dict", "wif"):
+                owned["p2sh_lookup"] = p2sh_lookup
+        # Solver(tx).sign is what Tx.sign does with a fresh Solver every time; a caller may as well keep one Solver per transaction
+        sign = tx.sign
+        if getattr(self, "keep_solver", False) and mechanism in ("dict", "keychain", "keychain_hd", "keychain_multi"):
+            if getattr(self, "solver", None) is None:
+                self.solver = tx.Solver(tx)
+            sign = self.solver.sign
+            self.log[-1]["kept_solver"] = True
+            self.rec.ev("Solver.sign(kept instance)")
         if mechanism == "dict":
-            lookup = net.tx.solve.build_hash160_lookup(secrets)
-            st, r = observe(tx.sign, lookup, p2sh_lookup=p2sh_lookup, **kwargs)
+            lookup = self.caller_object("hash160_lookup", fk, lambda: net.tx.solve.build_hash160_lookup(secrets))
+            owned["hash160_lookup"] = lookup
+            snap = self.snapshot(owned)
+            st, r = observe(sign, lookup, p2sh_lookup=p2sh_lookup, **kwargs)
             self.rec.ev("Tx.sign")
         elif mechanism == "wif":
-            wifs = []
-            for k in sorted(key_indices):
+            def make_wifs():
                 # a WIF carries one compression flag, which says nothing about the form the puzzle lists the key in
-                wifs.append(net.keys.private(self.keys.d[k], is_compressed=self.rng.random() < 0.6).wif())
+                return [net.keys.private(self.keys.d[k], is_compressed=self.rng.random() < 0.6).wif() for k in sorted(key_indices)]
+            wifs = self.caller_object("wifs", fk, make_wifs)
+            owned["wifs"] = wifs
+            snap = self.snapshot(owned)
             st, r = observe(net.tx_utils.sign_tx, tx, wifs, p2sh_lookup=p2sh_lookup, **kwargs)
             self.rec.ev("tx_utils.sign_tx")
         elif mechanism == "keychain_hd":
@@ -344,20 +465,135 @@ class History:
                 self.kc.add_secrets([self.keys.roots[j] for j in sorted(self.kc_roots)])
             else:
                 self.kc.add_secrets([self.keys.roots[j].subkey_for_path(acct) for j in sorted(self.kc_roots) for acct in ("0", "1", "2")])
-            st, r = observe(tx.sign, self.kc, p2sh_lookup=self.kc, **kwargs)
+            snap = self.snapshot(owned)
+            st, r = observe(sign, self.kc, p2sh_lookup=self.kc, **kwargs)
             self.rec.ev("Tx.sign(keychain_hd)")
+        elif mechanism == "keychain_multi":
+            self.multi_supply(key_indices, scripts)
+            snap = self.snapshot(owned)
+            st, r = observe(sign, self.kc, p2sh_lookup=self.kc, **kwargs)
+            self.rec.ev("Tx.sign(keychain_multi)")
         else:
             kc = net.keychain()
-            kc.add_secrets([net.keys.private(s) for s in secrets])
+            owned["secret_keys"] = [net.keys.private(s) for s in secrets]
+            snap = self.snapshot(owned)
+            kc.add_secrets(owned["secret_keys"])
             kc.add_p2s_scripts(scripts)
-            st, r = observe(tx.sign, kc, p2sh_lookup=kc, **kwargs)
+            st, r = observe(sign, kc, p2sh_lookup=kc, **kwargs)
             self.rec.ev("Tx.sign(keychain)")
+        if judge_args:
+            self.judge_caller_objects(owned, snap)
         if st != "ok":
             self.last_raise = r
             if report_raise:
                 self.rec.violation("sign.raises.%s" % type(r).__name__, self.case(), r, "signing returns")
             return False
         return True
+
+    # -- caller-owned argument objects -------------------------------------------------------------------
+    def caller_object(self, name, key, make):
+        """an argument object that belongs to the caller: built afresh for every call, or (arg_mode 'reuse') the very object
+        that was handed over in an earlier pass of this history"""
+        if getattr(self, "arg_mode", None) != "reuse":
+            return make()
+        kept = self.__dict__.setdefault("_kept", {})
+        if (name, key) in kept:
+            self.rec.ev("args.same_object_passed_again")
+        else:
+            kept[name, key] = make()
+        return kept[name, key]
+
+    @staticmethod
+    def snapshot(owned):
+        return {k: (list(v) if isinstance(v, list) else dict(v) if isinstance(v, dict) else set(v)) for k, v in owned.items()}
+
+    def judge_caller_objects(self, owned, snap):
+        """signing changes the transaction's unlocking data and nothing else: lookup tables, key lists, script lists and
+        index collections handed over by the caller come back as they went in. Afterwards the caller may do with them what
+        it likes (arg_mode 'scrub': they are emptied) without any effect on later passes."""
+        for name, obj in owned.items():
+            now = list(obj) if isinstance(obj, list) else dict(obj) if isinstance(obj, dict) else set(obj)
+            self.rec.ev("args.caller_object_compared")
+            self.rec.ev("args.compared:" + name)
+            if now != snap[name]:
+                self.rec.violation("frame.caller_argument_modified." + name, self.case({"argument": name}), repr(now)[:300], repr(snap[name])[:300])
+            elif self.arg_mode == "scrub" and not isinstance(obj, (tuple, frozenset, range)):
+                obj.clear()
+                self.rec.ev("args.returned_container_emptied_by_caller")
+
+    def multi_supply(self, key_indices, scripts):
+        """ONE keychain holding several wallets: every wallet is registered in one of MULTI_REGS ways and its secret arrives in
+        one of MULTI_FORMS (the master alone, the master plus its own root key as a plain WIF-style key, the same master as two
+        objects, account nodes plus master ...), all secrets of a pass in one shuffled order. A key counts as supplied when
+        the secret of the node its path was registered under is in the keychain - which the harness makes sure of for every
+        wallet it adds, whatever else is added around it."""
+        rng, net, K = self.rng, self.net, self.keys
+        nroots = len(K.roots)
+        accounts = ("0", "1", "2")
+        if self.kc is None:
+            self.kc = net.keychain()
+            self.kc_roots = set()
+            self.kc_order = []                  # wallets in the order their secrets were first added
+            self.kc_reg = [rng.choice(MULTI_REGS) for _ in range(nroots)]
+            self.kc_form = [rng.choice(MULTI_FORMS) for _ in range(nroots)]
+            order = list(range(nroots))
+            rng.shuffle(order)
+            for j in order:
+                root, reg = K.roots[j], self.kc_reg[j]
+                mine = [i for i in range(len(K.d)) if K.root_of[i] == j]
+                full = [K.path[i] for i in mine]
+                by_acct = {a: [K.path[i].split("/", 1)[1] for i in mine if K.path[i] and K.path[i].split("/", 1)[0] == a] for a in accounts}
+                steps = []
+                if reg in ("master_public", "master_private", "master_and_account"):
+                    node = root if reg == "master_private" else root.public_copy()
+                    steps.append(lambda node=node, full=full: self.kc.add_key_paths(node, list(full)))
+                if reg in ("account", "master_and_account"):
+                    for a in accounts:
+                        if by_acct[a]:
+                            steps.append(lambda a=a: self.kc.add_key_paths(root.subkey_for_path(a).public_copy(), list(by_acct[a])))
+                    # the root key itself is not below any account node
+                    steps.append(lambda: self.kc.add_key_paths(root.public_copy(), [""]))
+                if reg == "keys_path":
+                    # add_keys_path(keys, path): one path, any number of wallets - this wallet alone, or together with its
+                    # fingerprint twin / a bystander (whose leaves on this wallet's paths pay nobody here)
+                    mates = [root.public_copy()] + ([K.roots[j ^ 1].public_copy()] if rng.random() < 0.5 else [])
+                    for path in full:
+                        steps.append(lambda path=path: self.kc.add_keys_path(list(mates), path))
+                rng.shuffle(steps)
+                for f in steps:
+                    f()
+            self.kc.add_p2s_scripts(scripts)
+        new = sorted({K.root_of[k] for k in key_indices} - self.kc_roots)
+        if {0, 1} & (set(new) | self.kc_roots) and rng.random() < 0.6:
+            # the fingerprint twin moves in as well (its keys are then supplied, too)
+            new = sorted(set(new) | ({0, 1} - self.kc_roots))
+        again = [j for j in sorted(self.kc_roots) if rng.random() < 0.3]       # a wallet already present is added once more
+        secrets = []
+        for j in new + again:
+            root, form = K.roots[j], self.kc_form[j]
+            mine = [root]
+            if form == "xprv+root_as_wif":
+                mine.append(net.keys.private(root.secret_exponent(), is_compressed=True))
+            elif form == "xprv+root_as_uncompressed_wif":
+                mine.append(net.keys.private(root.secret_exponent(), is_compressed=False))
+            elif form == "xprv_twice":
+                # the same master once more, as a second object (a wallet file read twice)
+                mine.append(net.keys.bip32_deserialize(bytes(4) + root.serialize(as_private=True)))
+            if form == "accounts+master" or self.kc_reg[j] in ("account", "master_and_account"):
+                mine.extend(root.subkey_for_path(a) for a in accounts)
+            secrets.append(mine)
+        flat = [(j, s) for j, mine in zip(new + again, secrets) for s in mine]
+        rng.shuffle(flat)
+        for j, _ in flat:
+            if j not in self.kc_order:
+                self.kc_order.append(j)
+        self.kc_roots |= set(new)
+        if rng.random() < 0.5:
+            self.kc.add_secrets([s for _, s in flat])
+        else:
+            for _, s in flat:
+                self.kc.add_secret(s)
+        self.log[-1]["multi"] = {"new": new, "again": again, "order": [j for j, _ in flat], "reg": self.kc_reg, "form": self.kc_form}
 
     def apply_pass(self, key_indices, mechanism, asked, already_valid):
         """model update for one pass: every asked, not yet valid input gains the supplied keys it lists"""
@@ -373,15 +609,131 @@ class History:
 
     def signing_pass(self, before, key_indices, mechanism, asked, already_valid, what, idx_set=None):
         """sign, update the model, check; returns the frame after the pass"""
+        if getattr(self, "interludes", False) and self.rng.random() < 0.5:
+            self.refused_interlude(key_indices, mechanism, idx_set)
         ok = self.sign_with(key_indices, mechanism, idx_set=idx_set, report_raise=False)
         self.pass_mech = mechanism
         self.apply_pass(key_indices, mechanism, asked, already_valid)
         after, _ = self.check_step(before, asked, already_valid, what, raised=None if ok else self.last_raise)
         return after
 
+    # -- calls the library refuses, between the judged ones -----------------------------------------------------
+    def refused_interlude(self, key_indices, mechanism, idx_set):
+        """A call that cannot succeed, made just before a judged pass: the same transaction holding - for the time of that
+        call - a value that does not fit its wire field, a scalar of the wrong type, an unknown spent output; a bad
+        argument; or another transaction (of this or another coin) with such a value. Whether and how the library refuses is
+        not judged. The judged pass that follows (same keys, same request) must leave everything as the statement says."""
+        rng, tx, rec = self.rng, self.tx, self.rec
+        kind = rng.choice(INTERLUDES)
+        self.log.append({"interlude": kind})
+        n = len(tx.txs_in)
+        i = rng.randrange(n)
+        bad_int = rng.choice([2 ** 32, 2 ** 64, -1, 1.5, None, "1"])
+        if kind.startswith("same_tx."):
+            field = kind.split(".", 1)[1]
+            if field == "lock_time":
+                saved, tx.lock_time = tx.lock_time, bad_int
+            elif field == "version":
+                saved, tx.version = tx.version, rng.choice([2 ** 32, 2 ** 64, 1.5, None, "1"])
+            elif field == "sequence":
+                saved, tx.txs_in[i].sequence = tx.txs_in[i].sequence, bad_int
+            elif field == "outpoint_index":
+                saved, tx.txs_in[i].previous_index = tx.txs_in[i].previous_index, bad_int
+            elif field == "out_amount":
+                saved, tx.txs_out[0].coin_value = tx.txs_out[0].coin_value, rng.choice([2 ** 64, -1, 1.5, None, "1"])
+            elif field == "out_script":
+                saved, tx.txs_out[0].script = tx.txs_out[0].script, rng.choice(["51", None, 81, [0x51]])
+            elif field == "spent_amount":
+                saved, tx.unspents[i].coin_value = tx.unspents[i].coin_value, rng.choice([2 ** 64, -1, 1.5, None, "1"])
+            elif field == "unknown_unspent":
+                saved, tx.unspents[i] = tx.unspents[i], None
+            try:
+                ok = self.sign_with(key_indices, mechanism, idx_set=idx_set, report_raise=False)
+            finally:
+                if field == "lock_time":
+                    tx.lock_time = saved
+                elif field == "version":
+                    tx.version = saved
+                elif field == "sequence":
+                    tx.txs_in[i].sequence = saved
+                elif field == "outpoint_index":
+                    tx.txs_in[i].previous_index = saved
+                elif field == "out_amount":
+                    tx.txs_out[0].coin_value = saved
+                elif field == "out_script":
+                    tx.txs_out[0].script = saved
+                elif field == "spent_amount":
+                    tx.unspents[i].coin_value = saved
+                elif field == "unknown_unspent":
+                    tx.unspents[i] = saved
+            self.log[-1]["refused_call"] = True
+            rec.ev("interlude.%s:%s" % ("accepted" if ok else "refused", kind))
+            return
+        if kind.startswith("arg."):
+            what = kind.split(".", 1)[1]
+            p2sh_lookup, _ = self.scripts_lookup()
+            lookup = self.net.tx.solve.build_hash160_lookup([self.keys.d[k] for k in sorted(key_indices)])
+            kw = {"p2sh_lookup": p2sh_lookup}
+            if self.hash_type is not None:
+                kw["hash_type"] = self.hash_type
+            if idx_set is not None:
+                kw["tx_in_idx_set"] = set(idx_set)
+            if what == "hash_type":
+                kw["hash_type"] = rng.choice(["ALL", 1.5, b"\x01", [1]])
+            elif what == "index_out_of_range":
+                kw["tx_in_idx_set"] = sorted(set(idx_set if idx_set is not None else range(n)) | {n + rng.randrange(3)})
+            elif what == "index_not_an_int":
+                kw["tx_in_idx_set"] = [rng.choice(["0", None, 0.5])]
+            elif what == "secret_not_an_int":
+                bad = rng.choice([None, "1", 1.5, b"\x01"])
+                lookup = {h: (bad if v[0] is not None else v[0],) + tuple(v[1:]) for h, v in lookup.items()}
+            elif what == "lookup_without_get":
+                lookup = rng.choice([None, 7, [1]])
+            elif what == "p2sh_lookup_values_not_bytes":
+                kw["p2sh_lookup"] = {h: rng.choice(["51", 7]) for h in p2sh_lookup}
+            if what == "lookup_built_from_non_int_secret":
+                # the key-supply helpers themselves, given a secret that is no integer (after one that is)
+                st, r = observe(self.net.tx.solve.build_hash160_lookup, [self.keys.d[0], rng.choice([None, "1", 1.5, b"\x01"])])
+            elif what == "wif_list_with_non_wif":
+                st, r = observe(self.net.tx_utils.sign_tx, tx, [rng.choice([None, 5, b"5", "", "not a wif"])], **kw)
+            else:
+                st, r = observe(tx.sign, lookup, **kw)
+            rec.ev("interlude.%s:%s" % ("accepted" if st == "ok" else "refused", kind))
+            return
+        # another transaction object, of this or another coin, in the same process
+        from pycoin.networks.registry import network_for_netcode
+        code = rng.choice([self.netcode, self.netcode, "BTC", "BCH", "LTC", "BTG", "GRS", "DOGE"])
+        net = network_for_netcode(code)
+        Tx = net.tx
+        field = kind.split(".", 1)[1]
+        K = G.Keys(2) if not hasattr(History, "_ikeys") else History._ikeys
+        History._ikeys = K
+        pub = K.sec(1, True)
+        spks = [b"\x00\x14" + hash160(pub), b"\x76\xa9\x14" + hash160(pub) + b"\x88\xac", G.push(pub) + b"\xac"]
+        rng.shuffle(spks)
+        vals = {"lock_time": 0, "version": 1, "sequence": 0xffffffff, "outpoint_index": 1, "out_amount": 5000, "spent_amount": 7000, "out_script": b"\x51"}
+        if field in vals:
+            vals[field] = rng.choice([2 ** 32, 2 ** 64, -1, 1.5, None, "1"]) if field != "out_script" else rng.choice(["51", None, 81])
+            if field in ("out_amount", "spent_amount") and vals[field] == 2 ** 32:
+                vals[field] = 2 ** 64
+
+        def build_and_sign():
+            ins = [Tx.TxIn(bytes([j + 1]) * 32, vals["outpoint_index"], b"", vals["sequence"]) for j in range(len(spks))]
+            outs = [Tx.TxOut(1000, b"\x51"), Tx.TxOut(vals["out_amount"], vals["out_script"])]
+            other = Tx(vals["version"], ins, outs, vals["lock_time"], [Tx.TxOut(vals["spent_amount"], spk) for spk in spks])
+            if field == "unknown_unspent":
+                other.unspents[rng.randrange(len(spks))] = None
+            other.sign(net.tx.solve.build_hash160_lookup([K.d[1]]), hash_type=rng.choice([1, 3, 0x81, 0x83]))
+            return other
+        st, r = observe(build_and_sign)
+        self.log[-1]["on"] = code
+        rec.ev("interlude.%s:%s" % ("accepted" if st == "ok" else "refused", kind))
+        if code != self.netcode:
+            rec.ev("interlude.on_another_coin")
+
     def effective_keys(self, key_indices, mechanism):
         """keys really available to the signer in this pass"""
-        if mechanism != "keychain_hd":
+        if mechanism not in ("keychain_hd", "keychain_multi"):
             return set(key_indices)
         roots = set(getattr(self, "kc_roots", set())) | {self.keys.root_of[k] for k in key_indices}
         return {i for i in range(len(self.keys.d)) if self.keys.root_of[i] in roots}
@@ -468,7 +820,8 @@ class History:
                 continue
             if py_ok is not exp:
                 if exp:
-                    rec.violation("validity.signed_input_invalid.%s%s" % (kind, ".m>=9" if (p.m or 0) >= 9 else ""), self.case({"input": i, "ref": ref}), py_ok, True)
+                    rec.violation("validity.signed_input_invalid.%s%s%s" % (kind, ".m>=9" if (p.m or 0) >= 9 else "", ".several_secrets_in_one_keychain" if mech == "keychain_multi" else ""),
+                                  self.case({"input": i, "ref": ref}), py_ok, True)
                 elif py_ok is True:
                     rec.violation("validity.underSigned_input_reported_valid.%s" % kind, self.case({"input": i, "ref": ref}), py_ok, False)
                 else:
@@ -490,6 +843,19 @@ class History:
                 # which region of the quantified-over domain this validated input belongs to
                 rec.ev("valid:" + kind)
                 rec.ev("valid:via:" + mech)
+                for f in getattr(self, "edges", ()):
+                    rec.ev("valid:boundary_value:" + f)
+                if mech == "keychain_multi" and (p.m is None or p.m == len(p.key_idx)):
+                    # every listed key was needed: which wallets, registered and supplied how, next to whom
+                    for k in p.key_idx:
+                        j = self.keys.root_of[k]
+                        rec.ev("multi.valid.form:" + self.kc_form[j])
+                        rec.ev("multi.valid.reg:" + self.kc_reg[j])
+                        if not self.keys.path[k]:
+                            rec.ev("multi.valid.root_key_itself")
+                        if j in (0, 1) and {0, 1} <= self.kc_roots:
+                            first = [x for x in self.kc_order if x in (0, 1)][0]
+                            rec.ev("multi.valid.colliding_fingerprints.wallet_added_%s" % ("first" if j == first else "last"))
                 if not all(p.compressed):
                     rec.ev("valid:uncompressed_key")
                 if p.m is not None:
@@ -524,12 +890,20 @@ class History:
     # -- scenarios --------------------------------------------------------------------------------------
     def run(self):
         rng = self.rng
-        mech = rng.choice(["dict", "dict", "wif", "keychain", "keychain_hd", "keychain_hd"])
+        mech = rng.choice(["dict", "dict", "wif", "keychain", "keychain_hd", "keychain_hd", "keychain_multi"])
         if self.netcode in GRS_NETS and mech == "wif":
             mech = "dict"       # WIF text needs groestlcoin_hash, absent here
         if mech == "keychain_hd":
             self.keys = hd_universe(self.net, self.netcode)
+        if mech == "keychain_multi":
+            self.keys = hd_universe(self.net, self.netcode, HDKeysMulti)
+        self.boundaries = True
         self.build()
+        # what the caller does with the argument objects it owns: builds them afresh for every pass, hands the very same objects
+        # over again in later passes, or empties them after each call
+        self.arg_mode = rng.choice(["fresh", "reuse", "reuse", "scrub"])
+        self.keep_solver = rng.random() < 0.3
+        self.interludes = rng.random() < 0.6
         scenario = rng.choice(["all", "all", "two_pass", "idx_set", "one_key_at_a_time", "wrong_keys", "resign_after_edit"])
         self.scenario = scenario + "/" + mech
         n = len(self.puzzles)
@@ -608,9 +982,9 @@ class History:
             self.signing_pass(before, keys, mech, everything, set(), "first")
             edit = rng.choice(["out_value", "lock_time", "add_output", "sequence"])
             if edit == "out_value":
-                self.tx.txs_out[0].coin_value += 1
+                self.tx.txs_out[0].coin_value += 1 if self.tx.txs_out[0].coin_value < 2 ** 64 - 1 else -1
             elif edit == "lock_time":
-                self.tx.lock_time += 1
+                self.tx.lock_time += 1 if self.tx.lock_time < 0xffffffff else -1
             elif edit == "add_output":
                 self.tx.txs_out.append(self.net.tx.TxOut(3, b"\x51"))
             else:
@@ -644,10 +1018,10 @@ class History:
 _HD = {}
 
 
-def hd_universe(net, code):
-    if code not in _HD:
-        _HD[code] = HDKeys(net)
-    return _HD[code]
+def hd_universe(net, code, cls=HDKeys):
+    if (code, cls) not in _HD:
+        _HD[code, cls] = cls(net)
+    return _HD[code, cls]
 
 
 def networks_for_slot(slot):
@@ -664,7 +1038,11 @@ REQUIRED = (
     # every puzzle kind, validated by pycoin and by the reference after signing
     + ["valid:" + k for k in ("p2pk", "p2pkh", "p2wpkh", "p2sh-p2wpkh", "ms_bare", "ms_p2sh", "ms_p2wsh", "ms_p2sh-p2wsh")]
     # every key-supply mechanism, as the source of a validated input
-    + ["valid:via:" + m for m in ("dict", "wif", "keychain", "keychain_hd")]
+    + ["valid:via:" + m for m in ("dict", "wif", "keychain", "keychain_hd", "keychain_multi")]
+    # several wallets / several forms of one wallet in ONE keychain: every form, every registration, the root key itself, and
+    # the two wallets with one fingerprint whichever was added first
+    + ["multi.valid.form:" + f for f in MULTI_FORMS] + ["multi.valid.reg:" + r for r in MULTI_REGS]
+    + ["multi.valid.root_key_itself", "multi.valid.colliding_fingerprints.wallet_added_first", "multi.valid.colliding_fingerprints.wallet_added_last"]
     # key forms and the m-of-n range
     + ["valid:uncompressed_key", "valid:ms.m>=13", "valid:ms.n=20", "valid:ms_bare.n>4", "valid:ms_p2sh.redeem_script>500_bytes",
        "valid:ms_p2sh.n>7_mixed_key_forms"]
@@ -676,6 +1054,14 @@ REQUIRED = (
     + ["undersigned_input_checked", "wrong_keys.input_checked", "frame.unasked_input_compared", "frame.already_valid_input_compared",
        "resign.inputs_invalidated_by_edit"]
     + ["scenario:" + s for s in ("all", "two_pass", "idx_set", "one_key_at_a_time", "wrong_keys", "resign_after_edit")]
+    # a call the library refuses - every kind: a value that does not fit its field or is of the wrong type, in this transaction
+    # or in another one of this or another coin; an argument that cannot be used - right before a judged pass
+    + ["interlude.refused:" + k for k in INTERLUDES] + ["interlude.on_another_coin", "Solver.sign(kept instance)"]
+    # argument objects owned by the caller: compared after the call, handed over again, emptied by the caller
+    + ["args.compared:" + a for a in ("hash160_lookup", "p2sh_lookup", "scripts", "secret_keys", "tx_in_idx_set", "wifs")]
+    + ["args.same_object_passed_again", "args.returned_container_emptied_by_caller"]
+    # exact boundary values of the hashed fields, in a transaction with a validated input
+    + ["valid:boundary_value:" + f for f in EDGE_FIELDS]
 )
 
 
@@ -696,8 +1082,114 @@ def nets_for_shard(slot, seed, n):
     return out
 
 
+LONGRUN_REQUIRED = ["longrun.secrets_in_one_keychain>2**16+100", "longrun.keychain_answer_judged", "longrun.signed_and_validated",
+                    "longrun.signed_and_validated.reference", "longrun.signed_near_2**16_boundary", "longrun.oldest_key_signed_after_boundary"]
+
+
+def run_longrun(spec, rec, stop_after=None):
+    """ONE keychain (and ONE transaction object, ONE process, hence one generator) through more than 2**16 + 100 key-supply
+    operations: plain secrets d0, d0+1, d0+2 ... are added one by one. The reference keeps the public points by repeated
+    addition of G (no multiplication), so every secret's two hash160s are known independently. After every addition the
+    keychain is asked - the way the signer asks - for the new key under both hashes, for the oldest key and for a
+    pseudo-random earlier one. An answer that is not the key supplied is a suspect, not yet a violation: the statement
+    speaks about signing, so the suspect is confirmed by signing an input that pays to that key, with the keychain and
+    with exactly the answer the keychain gave. Besides, every 64th operation - and every one around the 2**15 / 2**16 key and
+    cache-entry boundaries - signs and validates an input for a new or an old key outright."""
+    from pycoin.networks.registry import network_for_netcode
+    rec.require(*LONGRUN_REQUIRED)
+    net = network_for_netcode("BTC")
+    Tx = net.tx
+    rng = shard_rng(spec["seed"], PROPERTY, spec["tier"], "longrun")
+    total = spec["ops"]
+    d0 = rng.randrange(2 ** 200, C.n - total - 2)
+    kc = net.keychain()
+    tx = Tx(1, [Tx.TxIn(b"\x5a" * 32, 1)], [Tx.TxOut(900, b"\x51")], 0, [Tx.TxOut(1000, b"")])
+    known = []                          # (compressed hash160, uncompressed hash160) of every secret supplied so far
+    P = None
+    boundaries = [b for k in range(15, 18) for b in (2 ** k, 2 ** k // 2)]
+    flags = ALL16
+    n_signed = 0
+
+    def pay_to(h, kind):
+        tx.unspents[0].script = b"\x76\xa9\x14" + h + b"\x88\xac" if kind == "p2pkh" else b"\x00\x14" + h
+        tx.txs_in[0].script = b""
+        tx.set_witness(0, [])
+        tx.lock_time = (tx.lock_time + 1) % 400000000
+
+    def signed_ok(lookup, with_reference):
+        st, r = observe(tx.sign, lookup)
+        ok = History.truth(*observe(tx.is_solution_ok, 0, flags=flags))
+        if ok is True and with_reference:
+            t = tx.txs_in[0]
+            ref_tx = {"version": tx.version, "lock_time": tx.lock_time, "ins": [{"prev": t.previous_hash, "index": t.previous_index, "script": bytes(t.script),
+                      "sequence": t.sequence, "witness": [bytes(w) for w in t.witness]}], "outs": [{"value": o.coin_value, "script": bytes(o.script)} for o in tx.txs_out]}
+            ref = RS.result_of(RS.verify_script, bytes(t.script), bytes(tx.unspents[0].script), ref_tx["ins"][0]["witness"], flags, ForkChecker(ref_tx, 0, 1000, ("", 0)))
+            rec.ev("longrun.signed_and_validated.reference")
+            return ref == "OK"
+        return ok is True
+
+    def judge_signing(i, j, why, answer=None, with_reference=False):
+        """an input paying to secret number j, signed with the keychain at operation i (and, for a suspect, with the answer
+        the keychain gave): must validate"""
+        nonlocal n_signed
+        n_signed += 1
+        form = answer[1] if answer is not None else (1 if (i + j) % 4 == 0 else 0)
+        h = known[j][form]
+        kind = "p2wpkh" if (form == 0 and (i + j) % 3 == 0) else "p2pkh"
+        pay_to(h, kind)
+        ok = signed_ok(kc, with_reference)
+        if ok and answer is not None:
+            pay_to(h, kind)
+            ok = signed_ok({h: answer[0]} if answer[0] is not None else {}, with_reference)
+        if ok:
+            rec.ev("longrun.signed_and_validated")
+        else:
+            rec.violation("validity.signed_input_invalid.%s.long_lived_keychain" % kind,
+                          {"longrun": True, "coord": [spec["seed"], spec["tier"]], "operation": i, "key_number": j, "why": why, "ops": total},
+                          "input left invalid", "valid: its secret was supplied to the keychain")
+        return ok
+
+    for i in range(total):
+        d = d0 + i
+        P = C.mul(d, C.G) if P is None else C.add(P, C.G)
+        x, y = P
+        known.append((hash160(bytes([2 + (y & 1)]) + x.to_bytes(32, "big")), hash160(b"\x04" + x.to_bytes(32, "big") + y.to_bytes(32, "big"))))
+        kc.add_secret(net.keys.private(d, is_compressed=i % 3 != 1))
+        # what the signer would be told, for the new key, the oldest and an earlier one
+        suspects = 0
+        for j, form in ((i, 0), (i, 1), (0, (i >> 1) & 1) if i & 1 else ((i * 7919 + 13) % (i + 1), (i >> 1) & 1)):
+            ans = kc.get(known[j][form])
+            rec.ev("longrun.keychain_answer_judged")
+            if not (isinstance(ans, tuple) and len(ans) >= 1 and ans[0] == d0 + j):
+                suspects += 1
+                rec.ev("longrun.suspect_answer")
+                if suspects <= 1 and rec.counters.get("longrun.suspect_answer", 0) <= 40:
+                    judge_signing(i, j, "keychain answered %r for a supplied key" % (type(ans).__name__,), answer=(ans, form), with_reference=False)
+        near = any(abs(i + 1 - b) <= 3 or abs(2 * (i + 1) - b) <= 3 for b in boundaries)
+        if near or i % 64 == 0:
+            ok = judge_signing(i, i if (i // 64) % 2 == 0 else (i * 31 + 7) % (i + 1), "sample", with_reference=(n_signed % 100 == 0))
+            if near:
+                rec.ev("longrun.signed_near_2**16_boundary")
+                judge_signing(i, 0, "oldest key near a boundary")
+                if i + 1 > 2 ** 16:
+                    rec.ev("longrun.oldest_key_signed_after_boundary")
+        if stop_after is not None and i >= stop_after:
+            break
+    if len(known) > 2 ** 16 + 100:
+        rec.ev("longrun.secrets_in_one_keychain>2**16+100")
+    if stop_after is None:
+        judge_signing(total - 1, 0, "oldest key at the end", with_reference=True)
+        judge_signing(total - 1, 2 ** 15 - 1, "key 2**15 at the end", with_reference=True)
+        if len(known) > 2 ** 16:
+            rec.ev("longrun.oldest_key_signed_after_boundary")
+    rec.case(("longrun", total))
+    rec.ev("scenario:longrun")
+
+
 def run_shard(spec, rec):
     from pycoin.networks.registry import network_for_netcode, network_codes
+    if spec.get("kind") == "longrun":
+        return run_longrun(spec, rec)
     rec.require(*REQUIRED)
     rec.require(*["net:" + c for c in network_codes()])
     keys = G.Keys(24)
@@ -721,6 +1213,9 @@ def run_shard(spec, rec):
 def replay_case(case, rec):
     """re-run exactly the stored history: its generator is a function of (seed, tier, shard, k)"""
     from pycoin.networks.registry import network_for_netcode
+    if case.get("longrun"):
+        seed, tier = case["coord"]
+        return run_longrun({"seed": seed, "tier": tier, "ops": case["ops"]}, rec, stop_after=case["operation"])
     keys = G.Keys(24)
     net = network_for_netcode(case["net"])
     seed, tier, shard, k = case["coord"]
